@@ -27,6 +27,18 @@ the history; the base case is Request.__init__, which sets FRESH, parses = 0).
 The handler, the registry and the stream are opaque stubs; every result they
 may produce (a document, None, MediaNotFoundError, MediaMalformedError, another
 exception, 415 from the registry) is explored.
+
+Frames (what each step must leave alone; each has a mutation in KILLS that this clause refutes):
+    get_media / media      on the request only _media / _media_error are written (the stream reference stays: a dropped
+                           stream would be re-created and re-read); the raw headers / environ, the options shared by all
+                           requests and the handler are only read -- in all three states
+    JSON / form handlers   one handler object serves every request: parsing, serializing and the sync<->async bridges
+                           leave no field on it; constructors set exactly the documented attributes (form handler: the
+                           two parser options as given); every empty form is a new dict
+    Response               render_body writes the rendering cache and (first rendering) the content type, nothing when
+                           there is nothing to do; resp.media = x writes _media and the cache and keeps text / data;
+                           reading resp.media writes nothing; options and handler are only read
+Every harness declares its covers with v.expect_covers(...), so an outcome whose v.cover is never executed is reported too.
 """
 from __future__ import annotations
 
@@ -118,6 +130,37 @@ def get_attr(v, o, name):
         return Outcome(value=v.interp.getattr(o, name))
     except PyRaise as e:
         return Outcome(exc=e.exc)
+
+
+# --- frames: "what the function does not say it changes, it leaves alone" ------------------------
+
+
+def snapshot(o):
+    """All fields of an object as {name: value}: the field record of an interpreted object, the slots and __dict__ of a real one."""
+    from pyvc.core import Obj
+
+    if isinstance(o, Obj):
+        return dict(o._fields)
+    out = {}
+    for c in type(o).__mro__:
+        sl = c.__dict__.get('__slots__', ())
+        for n in ((sl,) if isinstance(sl, str) else sl):
+            try:
+                out[n] = object.__getattribute__(o, n)
+            except AttributeError:
+                pass
+    out.update(getattr(o, '__dict__', {}))
+    return out
+
+
+def same_fields(now, before, except_for=()):
+    """No field added, none removed, every field (other than `except_for`) still bound to the very same object."""
+    return set(now) == set(before) and all(now[k] is before[k] for k in before if k not in except_for)
+
+
+def same_mapping(now, before):
+    """A dict still has the same keys, in the same order, bound to the very same objects."""
+    return list(now) == list(before) and all(now[k] is before[k] for k in before)
 
 
 def seq_eq(got, want):
@@ -283,16 +326,20 @@ def mk_world(v, asgi, with_default=True):
     e0_field = (w.e0.real if v.concrete else w.e0) if w.e0 is not None else None
     if asgi:
         w.stream = AsgiBody(v, w.trace)
-        hdrs = {b'content-length': b'17'} if w.has_cl else {}
+        hdrs = w.raw_headers = {b'content-length': b'17'} if w.has_cl else {}
         w.req = v.obj(AREQ, _media=w.m0, _media_error=e0_field, options=w.options, content_type=w.ct, _asgi_headers=hdrs,
                       is_websocket=False, _stream=w.stream)
     else:
         w.stream = WsgiBody(w.trace)
-        env = {'CONTENT_LENGTH': '17'} if w.has_cl else {}
+        env = w.raw_headers = {'CONTENT_LENGTH': '17'} if w.has_cl else {}
         w.req = v.obj(WREQ, _media=w.m0, _media_error=e0_field, options=w.options, content_type=w.ct, env=env, _bounded_stream=w.stream)
     d = v.choose(3, 'default_when_empty') if with_default else 0
     w.default_given = d != 0
     w.default = Doc("caller's default") if d == 1 else None
+    # what must come out of any call as it went in
+    w.req0, w.raw_headers0, w.options0, w.handler0 = snapshot(w.req), dict(w.raw_headers), snapshot(w.options), snapshot(w.handler)
+    names = ['state-VALUE', 'state-ERROR-reraise', 'fresh-success', 'fresh-error-raised', 'fresh-415']
+    v.expect_covers(*(names + (['state-ERROR-default', 'fresh-not-found-default'] if with_default else [])))
     return w
 
 
@@ -312,6 +359,13 @@ def spec_get_media(v, w, out):
     fresh_after = m1 is UNSET and e1 is None
 
     def invariant():
+        # frame, in every state: get_media writes the two cache fields of the request and nothing else -- not the stream
+        # reference (a dropped stream would be re-created, and re-read, by the next access), not the options shared by all
+        # requests, not the raw headers / environ it reads the Content-Length from, not the handler
+        v.check('writes-nothing-on-the-request-but-the-media-cache', same_fields(snapshot(req), w.req0, except_for=('_media', '_media_error')))
+        v.check('request-headers-are-only-read', same_mapping(w.raw_headers, w.raw_headers0))
+        v.check('options-and-handler-are-only-read', same_fields(snapshot(w.options), w.options0)
+                and same_fields(snapshot(h), w.handler0, except_for=('result', 'raised', 'returned')))
         v.check('parsed-at-most-once', total <= 1)
         v.check('after-a-parse-attempt-the-result-is-cached', not (total == 1 and fresh_after))
         v.check('never-both-value-and-error', m1 is UNSET or e1 is None)
@@ -428,6 +482,7 @@ def _environ(v, body_type):
 @harness(PROP, WREQ + '.__init__', inline=['falcon.*'])
 def wsgi_request_starts_fresh(v):
     """Base case of the induction: a new request is FRESH (nothing parsed, nothing cached)."""
+    v.expect_covers('constructed')
     UNSET = unset(v)
     ct = ['application/json', 'application/x-www-form-urlencoded'][v.choose(2, 'content-type')]
     trace = []
@@ -451,6 +506,7 @@ def asgi_request_starts_fresh(v):
     """ASGI: the two fields are class-level defaults; after construction the instance still reads FRESH."""
     from falcon import testing
 
+    v.expect_covers('constructed')
     UNSET = unset(v)
     ct = ['application/json', 'application/x-www-form-urlencoded'][v.choose(2, 'content-type')]
     trace = []
@@ -663,10 +719,14 @@ class ByteSource:
         return Ready(self.body) if self.is_async else self.body
 
 
-def json_deserialize_post(v, data, loads, out):
+def json_deserialize_post(v, data, loads, out, h=None, h0=None):
     """JSONHandler._deserialize(data), from the statement: empty -> not found; undecodable -> 400 malformed."""
     NotFound = v.real('falcon.errors:MediaNotFoundError')
     Malformed = v.real('falcon.errors:MediaMalformedError')
+    v.expect_covers('empty', 'not-utf8', 'document', 'rejected-by-loads')
+    if h is not None:
+        # frame: one handler object serves every request of the app -- parsing a body leaves nothing of it on the handler
+        v.check('parsing-leaves-the-handler-unchanged', same_fields(snapshot(h), h0))
     if Len(data) == 0:
         v.check('empty-body-raises-media-not-found', out.exc is not None and out.exc.isa(NotFound) and status_code(out.exc) == 400)
         v.check('empty-body-never-reaches-loads', len(loads.calls) == 0)
@@ -691,8 +751,9 @@ def json__deserialize(v):
     data = in_bytes(v, 'data')
     loads = Loads(v)
     h = v.obj(JSONH, _loads=loads, _dumps=None)
+    h0 = snapshot(h)
     out = v.call(h, data)
-    json_deserialize_post(v, data, loads, out)
+    json_deserialize_post(v, data, loads, out, h, h0)
 
 
 @harness(PROP, JSONH + '.deserialize', setup=_codecs, inline=[JSONH + '._deserialize'])
@@ -703,9 +764,10 @@ def json_deserialize(v):
     loads = Loads(v)
     h = v.obj(JSONH, _loads=loads, _dumps=None)
     cl = v.int('content_length', 0) if v.choose(2, 'content-length?') else None
+    h0 = snapshot(h)
     out = v.call(h, src, 'application/json', cl)
     v.check('reads-the-whole-body-with-one-unsized-read', src.reads == [None])
-    json_deserialize_post(v, data, loads, out)
+    json_deserialize_post(v, data, loads, out, h, h0)
 
 
 @harness(PROP, JSONH + '.deserialize_async', setup=_codecs, inline=[JSONH + '._deserialize'])
@@ -715,15 +777,18 @@ def json_deserialize_async(v):
     loads = Loads(v)
     h = v.obj(JSONH, _loads=loads, _dumps=None)
     cl = v.int('content_length', 0) if v.choose(2, 'content-length?') else None
+    h0 = snapshot(h)
     out = v.call(h, src, 'application/json', cl)
     v.check('reads-the-whole-body-with-one-unsized-read', src.reads == [None])
-    json_deserialize_post(v, data, loads, out)
+    json_deserialize_post(v, data, loads, out, h, h0)
 
 
 def _serialize_variant(v, async_, returns_bytes):
+    v.expect_covers('serialized')
     dumps = Dumps(v, returns_bytes)
     h = v.obj(JSONH, _dumps=dumps, _loads=None)
     media = Doc('response media')
+    h0 = snapshot(h)
     if async_ or v.choose(2, 'content-type-passed'):
         out = v.call(h, media, 'application/json')
     else:
@@ -732,6 +797,7 @@ def _serialize_variant(v, async_, returns_bytes):
     if out.exc is not None:
         return
     v.check('dumps-called-exactly-once-with-the-media-object', len(dumps.calls) == 1 and dumps.calls[0] is media)
+    v.check('serializing-leaves-the-handler-unchanged', same_fields(snapshot(h), h0))  # (no rendering kept on the shared handler)
     if len(dumps.results) != 1:
         return
     if returns_bytes:
@@ -777,6 +843,7 @@ def fn_self(m):
 @harness(PROP, JSONH + '.__init__', setup=_codecs)
 def json_init(v):
     """The constructor picks the serializer by the type dumps returns and publishes the sync fast path."""
+    v.expect_covers('constructed')
     returns_bytes = bool(v.choose(2, 'dumps-returns-bytes'))
     dumps = Dumps(v, returns_bytes)
     loads = Loads(v)
@@ -795,6 +862,8 @@ def json_init(v):
     ss, ds = v.get(h, '_serialize_sync'), v.get(h, '_deserialize_sync')
     v.check('sync-fast-path-is-the-same-serializer', fn_name(ss) == want and fn_self(ss) is h)
     v.check('sync-fast-path-deserializer-is-_deserialize', fn_name(ds) == '_deserialize' and fn_self(ds) is h)
+    # frame: the constructor sets the two codecs and the four entry points, nothing else (the probe result is not kept)
+    v.check('sets-exactly-the-codecs-and-entry-points', set(snapshot(h)) == {'_dumps', '_loads', 'serialize', 'serialize_async', '_serialize_sync', '_deserialize_sync'})
     v.cover('constructed')
 
 
@@ -804,10 +873,12 @@ def json_round_trip_plumbing(v):
 
     Hence deserialize(serialize(m)) == loads(dumps(m)); that this equals m is the assumed json contract.
     """
+    v.expect_covers('round-trip', 'round-trip-rejected-by-loads')
     dumps = Dumps(v, False)
     loads = Loads(v)
     h = v.obj(JSONH, _dumps=dumps, _loads=loads)
     media = Doc('response media')
+    h0 = snapshot(h)
     ser = v.call(h, media, 'application/json', target=JSONH + '._serialize_s')
     if ser.exc is not None or len(dumps.results) != 1:
         v.check('serialize-does-not-raise', False)
@@ -819,11 +890,14 @@ def json_round_trip_plumbing(v):
     src = ByteSource(body, is_async=is_async)
     out = v.call(h, src, 'application/json', None, target=JSONH + ('.deserialize_async' if is_async else '.deserialize'))
     v.check('loads-receives-exactly-the-text-dumps-produced', And(len(loads.calls) == 1, loads.calls[0] == text) if len(loads.calls) == 1 else False)
+    v.check('round-trip-leaves-the-handler-unchanged', same_fields(snapshot(h), h0))
+    v.check('round-trip-uses-each-codec-once', len(dumps.calls) == 1 and dumps.calls[0] is media and src.reads == [None])
     if loads.returned:
         v.check('round-trip-result-is-loads-of-dumps', out.exc is None and out.value is loads.result)
         v.cover('round-trip')
     else:
         v.check('round-trip-failure-only-if-loads-rejects-dumps-output', out.exc is not None and out.exc.isa(v.real('falcon.errors:MediaMalformedError')))
+        v.cover('round-trip-rejected-by-loads')
 
 
 # ---------------------------------------------------------------------------
@@ -871,8 +945,11 @@ class ParseQS:
         throw(v, self.raised)
 
 
-def urlencoded_deserialize_post(v, body, pqs, keep_blank, csv, out):
+def urlencoded_deserialize_post(v, body, pqs, keep_blank, csv, out, h=None, h0=None):
     Malformed = v.real('falcon.errors:MediaMalformedError')
+    v.expect_covers('not-ascii', 'parsed', 'parser-raised')
+    if h is not None:
+        v.check('parsing-leaves-the-handler-unchanged', same_fields(snapshot(h), h0))
     if not in_re(v, body, 'ascii'):
         v.check('non-ascii-body-raises-malformed-media-400', out.exc is not None and out.exc.isa(Malformed) and status_code(out.exc) == 400)
         v.check('non-ascii-body-never-reaches-the-parser', len(pqs.calls) == 0)
@@ -905,40 +982,50 @@ def _urlencoded_world(v):
 @harness(PROP, URLH + '._deserialize', setup=_codecs)
 def urlencoded__deserialize(v):
     body, keep_blank, csv, h, pqs = _urlencoded_world(v)
+    h0 = snapshot(h)
     with patched(v, 'falcon.media.urlencoded', 'parse_query_string', pqs):
         out = v.call(h, body)
-    urlencoded_deserialize_post(v, body, pqs, keep_blank, csv, out)
+    urlencoded_deserialize_post(v, body, pqs, keep_blank, csv, out, h, h0)
 
 
 @harness(PROP, URLH + '.deserialize', setup=_codecs, inline=[URLH + '._deserialize'])
 def urlencoded_deserialize(v):
     body, keep_blank, csv, h, pqs = _urlencoded_world(v)
     src = ByteSource(body)
+    h0 = snapshot(h)
     with patched(v, 'falcon.media.urlencoded', 'parse_query_string', pqs):
         out = v.call(h, src, 'application/x-www-form-urlencoded', None)
     v.check('reads-the-whole-body-with-one-unsized-read', src.reads == [None])
-    urlencoded_deserialize_post(v, body, pqs, keep_blank, csv, out)
+    urlencoded_deserialize_post(v, body, pqs, keep_blank, csv, out, h, h0)
 
 
 @harness(PROP, URLH + '.deserialize_async', setup=_codecs, inline=[URLH + '._deserialize'])
 def urlencoded_deserialize_async(v):
     body, keep_blank, csv, h, pqs = _urlencoded_world(v)
     src = ByteSource(body, is_async=True)
+    h0 = snapshot(h)
     with patched(v, 'falcon.media.urlencoded', 'parse_query_string', pqs):
         out = v.call(h, src, 'application/x-www-form-urlencoded', None)
     v.check('reads-the-whole-body-with-one-unsized-read', src.reads == [None])
-    urlencoded_deserialize_post(v, body, pqs, keep_blank, csv, out)
+    urlencoded_deserialize_post(v, body, pqs, keep_blank, csv, out, h, h0)
 
 
 @harness(PROP, URLH + '._deserialize', name='urlencoded_empty_body', setup=_codecs, inline=['falcon.util.uri:parse_query_string'])
 def urlencoded_empty_body(v):
     """An empty body yields what the handler documents: an empty dict (real parse_query_string, run on its source)."""
+    v.expect_covers('empty-form')
     keep_blank = bool(v.choose(2, 'keep_blank'))
     csv = bool(v.choose(2, 'csv'))
     h = v.obj(URLH, _keep_blank=keep_blank, _csv=csv)
     out = v.call(h, b'')
     v.check('empty-body-is-an-empty-form', out.exc is None and isinstance(out.value, dict) and len(out.value) == 0)
     v.cover('empty-form')
+    # frame across requests: the empty form is the request's media object and may be edited by the application; the next
+    # empty request must get an empty form of its own
+    if out.exc is None and isinstance(out.value, dict):
+        out.value['added-by-the-application'] = 'x'
+        out2 = v.call(h, b'')
+        v.check('each-empty-form-is-a-new-empty-dict', out2.exc is None and isinstance(out2.value, dict) and out2.value is not out.value and len(out2.value) == 0)
 
 
 @stubclass
@@ -961,9 +1048,11 @@ class UrlEncode:
 
 @harness(PROP, URLH + '.serialize', setup=_codecs)
 def urlencoded_serialize(v):
+    v.expect_covers('serialized')
     h = v.obj(URLH, _keep_blank=True, _csv=False)
     media = Doc('form mapping')
     ue = UrlEncode(v)
+    h0 = snapshot(h)
     with patched(v, 'falcon.media.urlencoded', 'urlencode', ue):
         out = v.call(h, media, 'application/x-www-form-urlencoded') if v.choose(2, 'content-type-passed') else v.call(h, media)
     v.check('no-exception', out.exc is None)
@@ -975,21 +1064,29 @@ def urlencoded_serialize(v):
         return
     args, kwargs = ue.calls[0]
     v.check('urlencode-receives-the-media-with-doseq', len(args) == 1 and args[0] is media and kwargs == {'doseq': True})
+    v.check('serializing-leaves-the-handler-unchanged', same_fields(snapshot(h), h0))
     v.check('returns-the-query-string-as-bytes', And(out.value == utf8_encoded(ue.results[0]), out.value == (SStr(ue.results[0].t, 'bytes') if isinstance(ue.results[0], SStr) else ue.results[0].encode('ascii'))))
     v.cover('serialized')
 
 
 @harness(PROP, URLH + '.__init__')
 def urlencoded_init(v):
+    v.expect_covers('constructed-with-arguments', 'constructed-with-defaults')
     keep_blank = bool(v.choose(2, 'keep_blank'))
     csv = bool(v.choose(2, 'csv'))
     h = v.obj(URLH)
-    out = v.call(h, keep_blank, csv) if v.choose(2, 'explicit-args') else v.call(h)
+    explicit = v.choose(2, 'explicit-args')
+    out = v.call(h, keep_blank, csv) if explicit else v.call(h)
     v.check('no-exception', out.exc is None)
     if out.exc is not None:
         return
     ss, ds = v.get(h, '_serialize_sync'), v.get(h, '_deserialize_sync')
     v.check('sync-fast-path-is-serialize-and-_deserialize', fn_name(ss) == 'serialize' and fn_self(ss) is h and fn_name(ds) == '_deserialize' and fn_self(ds) is h)
+    # the two parser options are what _deserialize hands to parse_query_string: stored as given, documented defaults otherwise
+    f = snapshot(h)
+    v.check('parser-options-stored-as-given-or-documented-defaults', f.get('_keep_blank') is (keep_blank if explicit else True) and f.get('_csv') is (csv if explicit else False))
+    v.check('sets-exactly-the-options-and-the-fast-path', set(f) == {'_keep_blank', '_csv', '_serialize_sync', '_deserialize_sync'})
+    v.cover('constructed-with-arguments' if explicit else 'constructed-with-defaults')
 
 
 # ---------------------------------------------------------------------------
@@ -1046,14 +1143,17 @@ def _either(v, rec):
 
 @harness(PROP, BASEH + '.deserialize_async', setup=_bridge_setup)
 def base_deserialize_async(v):
+    v.expect_covers('bridged', 'bridged-error')
     rec = Recorder()
     h = v.obj(sync_only_handler(v, rec))
     body = in_bytes(v, 'body')
     src = ByteSource(body, is_async=True)
     ct = v.str('content_type') if v.choose(2, 'content-type?') else None
     cl = v.int('content_length', 0) if v.choose(2, 'content-length?') else None
+    h0 = snapshot(h)
     out = v.call(h, src, ct, cl)
     v.check('reads-the-whole-body-with-one-unsized-read', src.reads == [None])
+    v.check('bridging-leaves-the-handler-unchanged', same_fields(snapshot(h), h0))
     ok = len(rec.calls) == 1
     v.check('delegates-to-deserialize-exactly-once', ok)
     if not ok:
@@ -1066,6 +1166,7 @@ def base_deserialize_async(v):
     v.check('content-length-is-the-actual-body-length', cl1 == Len(body))
     if rec.raised is not None:
         v.check('error-of-the-sync-half-propagates-identical', out.exc is not None and same_exc(out.exc, rec.raised))
+        v.cover('bridged-error')
     else:
         v.check('returns-what-the-sync-half-returned', out.exc is None and out.value is rec.result)
         v.cover('bridged')
@@ -1073,11 +1174,14 @@ def base_deserialize_async(v):
 
 @harness(PROP, BASEH + '.serialize_async')
 def base_serialize_async(v):
+    v.expect_covers('bridged', 'bridged-error')
     rec = Recorder()
     h = v.obj(sync_only_handler(v, rec))
     media = Doc('response media')
     ct = v.str('content_type')
+    h0 = snapshot(h)
     out = v.call(h, media, ct)
+    v.check('bridging-leaves-the-handler-unchanged', same_fields(snapshot(h), h0))
     ok = len(rec.calls) == 1
     v.check('delegates-to-serialize-exactly-once', ok)
     if not ok:
@@ -1086,6 +1190,7 @@ def base_serialize_async(v):
     v.check('delegates-with-the-same-media-and-content-type', And(self_ is h and m1 is media, ct1 == ct))
     if rec.raised is not None:
         v.check('error-of-the-sync-half-propagates-identical', out.exc is not None and same_exc(out.exc, rec.raised))
+        v.cover('bridged-error')
     else:
         v.check('returns-what-the-sync-half-returned', out.exc is None and out.value is rec.result)
         v.cover('bridged')
@@ -1141,12 +1246,25 @@ def mk_resp(v, asgi, state=None, media_kinds=2, simple=False):
     if st:
         w.rendered0 = Doc('cached rendering') if v.choose(2, 'cached-rendering-is-None') == 0 else None
     w.resp = v.obj(ARESP if asgi else WRESP, _headers={}, content_type=w.ct, text=None, _data=None, _media=w.media, _media_rendered=w.rendered0, options=w.options)
+    w.resp0, w.options0, w.handler0 = snapshot(w.resp), snapshot(w.options), snapshot(w.handler)
+    w.headers0 = dict(v.get(w.resp, '_headers'))
     return w
+
+
+def resp_frame(v, w, clause, may_write):
+    """Every field of the response other than `may_write` is bound to the object it was bound to (text, data, headers dict,
+    options ...; no new field); the options object shared by all responses and the handler are only read."""
+    now = snapshot(w.resp)
+    # (on replays content_type is the real property over the header dict: the dict's content is part of the frame)
+    headers_same = 'content_type' in may_write or ('_headers' in now and dict(now['_headers']) == w.headers0)
+    v.check(clause, same_fields(now, w.resp0, except_for=tuple(may_write)) and headers_same)
+    v.check('options-and-handler-are-only-read', same_fields(snapshot(w.options), w.options0) and same_fields(snapshot(w.handler), w.handler0, except_for=('results',)))
 
 
 def spec_render_body(v, w, out):
     UNSET = unset(v)
     resp, trace = w.resp, w.trace
+    v.expect_covers('no-media', 'cached', 'rendered')
     v.check('no-exception', out.exc is None)
     if out.exc is not None:
         return
@@ -1154,12 +1272,14 @@ def spec_render_body(v, w, out):
     if w.media is None:
         v.check('no-media-renders-nothing', out.value is None and len(trace) == 0)
         v.check('no-media-leaves-rendering-cache-alone', r1 is w.rendered0)
+        resp_frame(v, w, 'rendering-without-work-writes-nothing-on-the-response', ())
         v.cover('no-media')
         return
     if w.rendered0 is not UNSET:
         v.check('cached-rendering-returned-identical', out.value is w.rendered0)
         v.check('cached-rendering-does-not-serialize-again', len(trace) == 0)
         v.check('cached-rendering-kept', r1 is w.rendered0 and v.get(resp, '_media') is w.media)
+        resp_frame(v, w, 'rendering-without-work-writes-nothing-on-the-response', ())
         v.cover('cached')
         return
     # first rendering of the assigned media
@@ -1177,6 +1297,7 @@ def spec_render_body(v, w, out):
     v.check('rendering-cached', r1 is w.handler.results[0] and r1 is not UNSET)
     v.check('content-type-defaults-to-the-default-media-type', v.get(resp, 'content_type') == ct_eff)
     v.check('media-kept', v.get(resp, '_media') is w.media)
+    resp_frame(v, w, 'first-rendering-writes-only-the-rendering-cache-and-content-type', ('_media_rendered', 'content_type'))
     v.cover('rendered')
 
 
@@ -1196,26 +1317,37 @@ def asgi_render_body_media(v):
 
 @harness(PROP, WRESP + '.media@setter')
 def resp_media_setter(v):
+    v.expect_covers('assigned')
     UNSET = unset(v)
     w = mk_resp(v, asgi=bool(v.choose(2, 'asgi')), simple=True)
+    # (text / data set earlier stay: render_body's precedence text > data > media is part of C05, not undone by an assignment)
+    v.set(w.resp, 'text', v.str('text_set_earlier'))
+    v.set(w.resp, '_data', v.bytes('data_set_earlier'))
+    w.resp0 = snapshot(w.resp)
     new = Doc('newly assigned media') if v.choose(2, 'assign-None') == 0 else None
     out = v.call(w.resp, new)
     v.check('no-exception', out.exc is None)
     v.check('assignment-stores-the-object', v.get(w.resp, '_media') is new)
     v.check('assignment-resets-the-rendering-cache', v.get(w.resp, '_media_rendered') is UNSET)
     v.check('assignment-does-not-serialize', len(w.trace) == 0)
+    resp_frame(v, w, 'assignment-writes-only-media-and-the-rendering-cache', ('_media', '_media_rendered'))
+    v.cover('assigned')
 
 
 @harness(PROP, WRESP + '.media')
 def resp_media_getter(v):
+    v.expect_covers('read')
     w = mk_resp(v, asgi=bool(v.choose(2, 'asgi')), simple=True)
     out = v.call(w.resp)
     v.check('returns-the-assigned-object', out.exc is None and out.value is w.media)
     v.check('reading-does-not-serialize-or-touch-the-cache', len(w.trace) == 0 and v.get(w.resp, '_media_rendered') is w.rendered0)
+    resp_frame(v, w, 'reading-writes-nothing-on-the-response', ())
+    v.cover('read')
 
 
 def _history(v, asgi):
     """render; resp.media = m2; render; render  ->  serializations are exactly [m1, m2], bodies follow the assignment."""
+    v.expect_covers('history')
     w = mk_resp(v, asgi=asgi, state=0, media_kinds=1)
     target = (ARESP if asgi else WRESP) + '.render_body'
     o1 = v.call(w.resp, target=target)
@@ -1331,6 +1463,59 @@ KILLS = [
     # ASGI Response: Content-Type fallback dropped
     ('falcon/asgi/response.py', '                    if not self.content_type:\n                        self.content_type = self.options.default_media_type\n', '',
      'asgi.response:Response.render_body#one-resolution-then-one-serialization-of-the-assigned-media'),
+    # --- frames (audit: a post-condition silent about state lets a change that corrupts it verify)
+    # the exhausted stream is dropped from the request: the next access re-creates it over the raw input and reads again
+    ('falcon/request.py', '        finally:\n            if handler.exhaust_stream:\n                self.bounded_stream.exhaust()\n',
+     '        finally:\n            if handler.exhaust_stream:\n                self.bounded_stream.exhaust()\n                self._bounded_stream = None\n',
+     'falcon.request:Request.get_media#writes-nothing-on-the-request-but-the-media-cache'),
+    ('falcon/asgi/request.py', '        finally:\n            if handler.exhaust_stream:\n                await self.stream.exhaust()\n',
+     '        finally:\n            if handler.exhaust_stream:\n                await self.stream.exhaust()\n                self._stream = None\n',
+     'falcon.asgi.request:Request.get_media#writes-nothing-on-the-request-but-the-media-cache'),
+    # Content-Length popped from the environ instead of read (the next reader of the header sees none)
+    ('falcon/request.py', "            value = self.env['CONTENT_LENGTH']\n", "            value = self.env.pop('CONTENT_LENGTH')\n", 'falcon.request:Request.get_media#request-headers-are-only-read'),
+    # "do not exhaust twice": the flag is cleared on the handler, which is shared by every request of the app
+    ('falcon/request.py', '        finally:\n            if handler.exhaust_stream:\n                self.bounded_stream.exhaust()\n',
+     '        finally:\n            if handler.exhaust_stream:\n                self.bounded_stream.exhaust()\n                handler.exhaust_stream = False\n',
+     'falcon.request:Request.get_media#options-and-handler-are-only-read'),
+    # the (shared) JSON handler keeps the last parsed document / the last rendering / its constructor probe
+    ('falcon/media/json.py', '            return self._loads(data.decode())\n', '            self._last_document = self._loads(data.decode())\n            return self._last_document\n',
+     'JSONHandler._deserialize#parsing-leaves-the-handler-unchanged'),
+    ('falcon/media/json.py', '    def _serialize_s(self, media: Any, content_type: Optional[str] = None) -> bytes:\n        return self._dumps(media).encode()',
+     '    def _serialize_s(self, media: Any, content_type: Optional[str] = None) -> bytes:\n        self._last_rendering = self._dumps(media).encode()\n        return self._last_rendering',
+     'JSONHandler._serialize_s#serializing-leaves-the-handler-unchanged'),
+    ('falcon/media/json.py', "        result = self._dumps({'message': 'Hello World'})\n", "        result = self._probe = self._dumps({'message': 'Hello World'})\n",
+     'JSONHandler.__init__#sets-exactly-the-codecs-and-entry-points'),
+    # the form handler keeps the decoded body / the encoded form; its constructor mixes up or adds attributes
+    ('falcon/media/urlencoded.py', "            body_str = body.decode('ascii')\n", "            body_str = self._last_body = body.decode('ascii')\n",
+     'URLEncodedFormHandler._deserialize#parsing-leaves-the-handler-unchanged'),
+    ('falcon/media/urlencoded.py', '        return urlencode(media, doseq=True).encode()\n', '        self._encoded = urlencode(media, doseq=True).encode()\n        return self._encoded\n',
+     'URLEncodedFormHandler.serialize#serializing-leaves-the-handler-unchanged'),
+    ('falcon/media/urlencoded.py', '        self._csv = csv\n', '        self._csv = keep_blank\n', 'URLEncodedFormHandler.__init__#parser-options-stored-as-given-or-documented-defaults'),
+    ('falcon/media/urlencoded.py', '        self._csv = csv\n', '        self._csv = csv\n        self._forms = []\n', 'URLEncodedFormHandler.__init__#sets-exactly-the-options-and-the-fast-path'),
+    # one result dict for every parsed query string / form ("avoid an allocation"): the forms of different requests are one object
+    ('falcon/util/uri.py', '    params: dict = {}\n', "    params: dict = parse_query_string.__dict__.setdefault('params', {})\n",
+     'URLEncodedFormHandler._deserialize#each-empty-form-is-a-new-empty-dict'),
+    # the sync<->async bridges keep the buffered body / the rendering on the handler
+    ('falcon/media/base.py', '        return self.deserialize(io.BytesIO(data), content_type, content_length)\n',
+     '        self._buffered = io.BytesIO(data)\n        return self.deserialize(self._buffered, content_type, content_length)\n',
+     'BaseHandler.deserialize_async#bridging-leaves-the-handler-unchanged'),
+    ('falcon/media/base.py', '        return self.serialize(media, content_type)\n', '        self._rendered = self.serialize(media, content_type)\n        return self._rendered\n',
+     'BaseHandler.serialize_async#bridging-leaves-the-handler-unchanged'),
+    # the rendering is also stored as resp.data "for the fast path" (data outranks media: a later resp.media = ... is ignored)
+    ('falcon/response.py', '                data = self._media_rendered\n', '                data = self._data = self._media_rendered\n',
+     'falcon.response:Response.render_body#first-rendering-writes-only-the-rendering-cache-and-content-type'),
+    # Content-Type defaulted even when there is nothing to render
+    ('falcon/response.py', '        if text is None:\n            data = self._data\n',
+     '        if text is None:\n            data = self._data\n            if not self.content_type:\n                self.content_type = self.options.default_media_type\n',
+     'falcon.response:Response.render_body#rendering-without-work-writes-nothing-on-the-response'),
+    # the type rendered last becomes the default media type of the options object shared by all responses
+    ('falcon/response.py', '                    self._media_rendered = handler.serialize(\n', '                    self.options.default_media_type = self.content_type\n                    self._media_rendered = handler.serialize(\n',
+     'falcon.response:Response.render_body#options-and-handler-are-only-read'),
+    # assigning media clears data "so that media wins" / reading media defaults the content type
+    ('falcon/response.py', '        self._media = value\n        self._media_rendered = _UNSET\n', '        self._media = value\n        self._media_rendered = _UNSET\n        self._data = None\n',
+     'Response.media@setter#assignment-writes-only-media-and-the-rendering-cache'),
+    ('falcon/response.py', '        return self._media\n', "        self.content_type = self.content_type or 'application/json'\n        return self._media\n",
+     'Response.media#reading-writes-nothing-on-the-response'),
 ]
 HARMLESS = [
     ('falcon/media/json.py', '            return self._loads(data.decode())\n', '            text = data.decode()\n            return self._loads(text)\n'),
